@@ -14,6 +14,7 @@ import (
 	"strconv"
 	"strings"
 	"sync/atomic"
+	"syscall"
 	"time"
 )
 
@@ -51,6 +52,10 @@ type Stats struct {
 	distinct       map[uint64]struct{}
 	apiEscalations []C01Spec
 	APIEsc         []C01Spec `json:"api_escalations,omitempty"`
+	LongestCallMs  float64   `json:"longest_call_ms"` // longest completed library call (wall clock)
+	// processor time the process used while the longest-running call that the watchdog saw in progress
+	// (i.e. one lasting over a second) was running; the watchdog fires at opHangLimit of it
+	LongestCallCPUMs float64 `json:"longest_call_cpu_ms"`
 }
 
 func newStats() *Stats {
@@ -71,7 +76,51 @@ type Ctx struct {
 	vspec      interface{}   // spec attached to violations raised outside an episode (parent-side work)
 }
 
-const opHangLimit = 30 * time.Second
+// A library call is a hang when the process has burnt opHangLimit of processor time since the
+// watchdog first saw that call in progress (a spinning loop), or when it has been in progress for
+// opBlockLimit of wall clock (a call blocked without using the processor). Processor time, not wall
+// time, so that a loaded machine cannot turn a slow call into an alarm: the longest call any check
+// makes on the unchanged tree needs about two seconds of processor time (evidence: hang_watchdog).
+const opHangLimit = 90 * time.Second
+const opBlockLimit = 20 * time.Minute
+
+func processCPU() time.Duration {
+	var ru syscall.Rusage
+	if syscall.Getrusage(syscall.RUSAGE_SELF, &ru) != nil {
+		return 0
+	}
+	return time.Duration(ru.Utime.Nano() + ru.Stime.Nano())
+}
+
+func hangWatch(onHang func()) {
+	var seen int64
+	var cpu0, last time.Duration
+	note := func() { // processor time of a call that was seen in progress at least twice and has ended since
+		if d := int64(last - cpu0); seen != 0 && d > atomic.LoadInt64(&opClock.longestCPU) {
+			atomic.StoreInt64(&opClock.longestCPU, d)
+		}
+	}
+	for {
+		time.Sleep(time.Second)
+		s := atomic.LoadInt64(&opClock.start)
+		if s == 0 {
+			note()
+			seen = 0
+			continue
+		}
+		if s != seen {
+			note()
+			seen, cpu0 = s, processCPU()
+			last = cpu0
+			continue
+		}
+		last = processCPU()
+		if last-cpu0 > opHangLimit || time.Now().UnixNano()-s > int64(opBlockLimit) {
+			onHang()
+			return
+		}
+	}
+}
 
 func nowS() float64 { return float64(time.Now().UnixNano()) / 1e9 }
 
@@ -385,28 +434,24 @@ func workerMain(def *CheckDef, tier string, w, W int, out string) int {
 		seed uint64
 		spec interface{}
 	}
-	go func() {
-		for {
-			time.Sleep(time.Second)
-			s := atomic.LoadInt64(&opClock.start)
-			if s != 0 && time.Now().UnixNano()-s > int64(opHangLimit) {
-				raw, _ := json.Marshal(curEpisode.spec)
-				wst := newStats()
-				wst.Episodes = curEpisode.i/W + 1
-				wst.Violations = []Violation{{Property: def.ID, Class: "hang", Key: "hang", Detail: fmt.Sprintf("a library call did not return within %v (episode %d); the call neither finished nor read the random source without end", opHangLimit, curEpisode.i), Seed: curEpisode.seed, Spec: raw, Episode: curEpisode.i, Worker: w, Workers: W, BaseSeed: tierSeed(tier)}}
-				if b, err := json.Marshal(wst); err == nil {
-					os.WriteFile(out+".hang", b, 0644)
-				}
-				os.Exit(4)
-			}
+	go hangWatch(func() {
+		raw, _ := json.Marshal(curEpisode.spec)
+		wst := newStats()
+		wst.Episodes = curEpisode.i/W + 1
+		wst.Violations = []Violation{{Property: def.ID, Class: "hang", Key: "hang", Detail: fmt.Sprintf("a library call did not return after %v of processor time (episode %d); the call neither finished nor read the random source without end", opHangLimit, curEpisode.i), Seed: curEpisode.seed, Spec: raw, Episode: curEpisode.i, Worker: w, Workers: W, BaseSeed: tierSeed(tier)}}
+		if b, err := json.Marshal(wst); err == nil {
+			os.WriteFile(out+".hang", b, 0644)
 		}
-	}()
+		os.Exit(4)
+	})
 	flush := func(st *Stats) {
 		st.Distinct = st.Distinct[:0]
 		for h := range st.distinct {
 			st.Distinct = append(st.Distinct, h)
 		}
 		st.APIEsc = st.apiEscalations
+		st.LongestCallMs = float64(atomic.LoadInt64(&opClock.longest)) / 1e6
+		st.LongestCallCPUMs = float64(atomic.LoadInt64(&opClock.longestCPU)) / 1e6
 		if b, err := json.Marshal(st); err == nil {
 			os.WriteFile(out, b, 0644)
 		}
@@ -492,6 +537,8 @@ func workerMain(def *CheckDef, tier string, w, W int, out string) int {
 		st.apiEscalations = st.apiEscalations[:4]
 	}
 	st.APIEsc = st.apiEscalations
+	st.LongestCallMs = float64(atomic.LoadInt64(&opClock.longest)) / 1e6
+	st.LongestCallCPUMs = float64(atomic.LoadInt64(&opClock.longestCPU)) / 1e6
 	st.Counters["probe_calls"] += int64(probeCalls)
 	b, _ := json.Marshal(st)
 	if err := os.WriteFile(out, b, 0644); err != nil {
@@ -779,6 +826,12 @@ func mergeStats(t, s *Stats) {
 	t.Violations = append(t.Violations, s.Violations...)
 	t.apiEscalations = append(t.apiEscalations, s.APIEsc...)
 	t.Trouble = append(t.Trouble, s.Trouble...)
+	if s.LongestCallMs > t.LongestCallMs {
+		t.LongestCallMs = s.LongestCallMs
+	}
+	if s.LongestCallCPUMs > t.LongestCallCPUMs {
+		t.LongestCallCPUMs = s.LongestCallCPUMs
+	}
 }
 
 func writeEvidence(def *CheckDef, tier string, seed uint64, st *Stats, wall float64, nviol int) error {
@@ -807,6 +860,7 @@ func writeEvidence(def *CheckDef, tier string, seed uint64, st *Stats, wall floa
 		"components_simulated":    def.Simulated,
 		"exhaustive":              false,
 		"transcript_digest":       fmt.Sprintf("%016x", st.TranscriptSum),
+		"hang_watchdog":           fmt.Sprintf("longest completed library call %.1f ms of wall clock; most processor time used during a call lasting over a second: %.1f ms; a call still running after %v of processor time (or %v of wall clock) is reported as class hang", st.LongestCallMs, st.LongestCallCPUMs, opHangLimit, opBlockLimit),
 	}
 	ev := map[string]interface{}{
 		"property_id": def.ID,
@@ -864,20 +918,14 @@ func replayMain(path string) int {
 	}
 	installSimulator()
 	installOrderHooks()
-	go func() {
-		for {
-			time.Sleep(time.Second)
-			s := atomic.LoadInt64(&opClock.start)
-			if s != 0 && time.Now().UnixNano()-s > int64(opHangLimit) {
-				fmt.Fprintf(capt.realOut, "replay: property=%s class=hang key=hang: a library call did not return within %v\n", rf.Property, opHangLimit)
-				if rf.Class == "hang" {
-					fmt.Fprintf(capt.realOut, "VIOLATION property=%s replay=%s\n", rf.Property, path)
-					os.Exit(1)
-				}
-				os.Exit(2)
-			}
+	go hangWatch(func() {
+		fmt.Fprintf(capt.realOut, "replay: property=%s class=hang key=hang: a library call did not return after %v of processor time\n", rf.Property, opHangLimit)
+		if rf.Class == "hang" {
+			fmt.Fprintf(capt.realOut, "VIOLATION property=%s replay=%s\n", rf.Property, path)
+			os.Exit(1)
 		}
-	}()
+		os.Exit(2)
+	})
 	st := newStats()
 	var vs []Violation
 	trouble := canaryTrouble(def)
